@@ -77,11 +77,11 @@ func hC02SymPresentation(maxCreds int) (vc.VerifiablePresentation, hC02PresSpec)
 
 // H02c: the signer/subject loop of handleS2SAccessTokenRequest over 1..vps presentations.
 func H02c() {
-	n := vLen(1, vParam("vps", 2))
+	n := vLen(1, vParam("c_vps", 2))
 	var specs []hC02PresSpec
 	var vps []vc.VerifiablePresentation
 	for i := 0; i < n; i++ {
-		vp, spec := hC02SymPresentation(vParam("creds", 2))
+		vp, spec := hC02SymPresentation(vParam("c_creds", 2))
 		vps = append(vps, vp)
 		specs = append(specs, spec)
 	}
